@@ -45,6 +45,9 @@ func genC19(seed uint64, tier string) *plan.Plan {
 	pl.Cfg["schema"] = int64(1 + r.IntN(2))
 	pl.Cfg["successes"] = int64(r.IntN(2))
 	pl.Cfg["lazy"] = int64(r.IntN(3))
+	if r.IntN(5) == 0 {
+		pl.Cfg["fail_every"] = int64(2 + r.IntN(4))
+	}
 	n := 2 + r.IntN(10)
 	if r.IntN(6) == 0 {
 		// two collecting processes feed one producer: a PublishIPFIXMessages loop per message channel
@@ -285,7 +288,8 @@ func runC19(pl *plan.Plan, out *plan.Outcome) {
 		out.Trouble = err.Error()
 		return
 	}
-	br := &simBroker{input: make(chan *sarama.ProducerMessage), successes: make(chan *sarama.ProducerMessage), errors: make(chan *sarama.ProducerError)}
+	br := &simBroker{input: make(chan *sarama.ProducerMessage), successes: make(chan *sarama.ProducerMessage), errors: make(chan *sarama.ProducerError, 64)}
+	failEvery := int(cfgOr(pl, "fail_every", 0)) // the broker reports every n-th publication as failed (Errors channel)
 	kp.SetSaramaProducer(br)
 	stalls := map[int]time.Duration{}
 	var msgs []plan.Op
@@ -367,6 +371,16 @@ func runC19(pl *plan.Plan, out *plan.Outcome) {
 				if len(got) >= 2 {
 					encode(got[len(got)-2])
 				}
+			}
+			if failEvery > 0 && !successes && n%failEvery == 0 {
+				// the publication failed: reported on Errors(), which an application may read or not;
+				// the records that follow are handed over all the same
+				select {
+				case br.errors <- &sarama.ProducerError{Msg: pm, Err: sarama.ErrOutOfBrokers}:
+					env.Count("fault.publication_reported_failed", 1)
+				default:
+				}
+				continue
 			}
 			if successes {
 				if lazy > 0 {
